@@ -202,8 +202,21 @@ impl Property for C04 {
                         seen_virtual_error = true;
                         answered_error = true;
                     } else {
-                    // an expression could not be evaluated (a Z/X read, for instance): what
-                    // the program state is afterwards is not specified; stop here
+                    // an expression could not be evaluated. Expressions are total in this
+                    // profile, so the reason can only be a read of an output whose latest value
+                    // is Z or X: if the latest answer holds numbers only, a read of a numeric
+                    // output has failed. Either way the program state afterwards is not
+                    // specified; stop here
+                    // (a name bound only in a while body that did not run is the other possible
+                    // reason - C10's "variable never assigned": programs with a `let` inside a
+                    // `while` are not judged here)
+                    if !latest.is_empty() && latest.iter().all(|(_, v)| matches!(v, OutVal::Val(_))) && spec.deviate_at.is_none() && crate::model::names_let_in_while(&built.prog).is_empty() {
+                        out.fail(
+                            "c04:read-of-a-numeric-output-failed",
+                            format!("item {i} is an error item for which no driver call was made (an expression could not be evaluated), but every output in the latest output-reading call (driver call #{latest_call}) has a numeric value: {latest:?}"),
+                        );
+                        return out;
+                    }
                     out.class("zx-read-error-seen");
                     nontrivial = true;
                     break;
